@@ -136,7 +136,7 @@ func guardOf(prev *symx.CEvent) string {
 			return "fail_" + prev.CallKey
 		}
 		return "(not fail_" + prev.CallKey + ")"
-	case "sel":
+	case "sel", "probe":
 		return fmt.Sprintf("(= choice_%s %d)", prev.Key, prev.Choice)
 	case "wait":
 		if prev.Choice == 0 {
@@ -348,7 +348,7 @@ func (e *Enc) axioms() {
 				d("(declare-const fail_%s Bool)", n.Ev.CallKey)
 				e.NoFail = append(e.NoFail, "(not fail_"+n.Ev.CallKey+")")
 			}
-		case "sel":
+		case "sel", "probe":
 			d("(declare-const choice_%s Int)", n.Ev.Key)
 		case "wait":
 			d("(declare-const wnil_%s Bool)", n.Ev.Key)
@@ -377,6 +377,10 @@ func (e *Enc) axioms() {
 				alts = append(alts, fmt.Sprintf("(and (= choice_%s %d) %s)", n.Ev.Key, i, e.closedBefore(ch, n.C)))
 			}
 			phi("(=> %s %s)", n.X, or(alts))
+		case "probe":
+			// ctx.Err(): non-nil (choice 1) exactly if the context is done at that instant
+			done := e.closedBefore(n.Ev.Chans[0], n.C)
+			phi("(=> %s (and (=> (= choice_%s 1) %s) (=> (= choice_%s 0) (not %s)) (or (= choice_%s 0) (= choice_%s 1))))", n.X, n.Ev.Key, done, n.Ev.Key, done, n.Ev.Key, n.Ev.Key)
 		case "spawn":
 			if e.P.LimitSet {
 				phi("(=> %s (< %s %d))", n.X, e.activeCount(n.Ev.Spawned, n.C, false), e.P.Limit)
@@ -550,7 +554,7 @@ func (e *Enc) ModelVars() []string {
 			if n.Ev.Fallible {
 				vs = append(vs, "fail_"+n.Ev.CallKey)
 			}
-		case "sel":
+		case "sel", "probe":
 			vs = append(vs, "choice_"+n.Ev.Key)
 		case "wait":
 			vs = append(vs, "wnil_"+n.Ev.Key, n.Ev.Err)
